@@ -550,6 +550,12 @@ def _mapped_chain():
     return r
 
 
+def _tuple_first():
+    """seeded change C12-s3-A: f(x) → (a, b) [a genuine tuple output_name, listed FIRST], g(y) → c"""
+    f = _fn("f", ["x"], "a"); f["outputs"] = ["a", "b"]
+    return _req([f, _fn("g", ["y"], "c")], ["x", "y"])
+
+
 _ED_A = [{"k": "member-defaults", "fn": "g", "p": "b", "v": {"s": "edit:2"}}]
 CORPUS = [
     # seeded C12-s2-A: a changed default on ONE member after construction must be refused at the start of map / run / __call__
@@ -567,6 +573,13 @@ CORPUS = [
      "folder": False, "exec": None, "parallel": False, "output": "y"},
     {"op": "edit:pipe-rename", "base": _three(), "edits": [{"k": "pipe-rename", "old": "z", "new": "c"}], "action": "map",
      "folder": False, "exec": None, "parallel": False},
+    # seeded C12-s3-A: an output renamed in place to an ELEMENT of a tuple output_name of an earlier-listed function
+    {"op": "edit:pipe-rename", "base": _tuple_first(), "edits": [{"k": "pipe-rename", "old": "c", "new": "a"}], "action": "run",
+     "folder": False, "exec": None, "parallel": False, "output": "b"},
+    {"op": "edit:rename-out-dup", "base": _tuple_first(), "edits": [{"k": "member-rename", "fn": "g", "old": "c", "new": "b"}], "action": "map",
+     "folder": False, "exec": None, "parallel": False},
+    {"op": "edit:rename-out-dup", "base": _tuple_first(), "edits": [{"k": "member-rename", "fn": "g", "old": "c", "new": "b"}], "action": "map",
+     "folder": True, "exec": None, "parallel": False},
     {"op": "edit:rename-cycle", "base": _three(), "edits": [{"k": "member-rename", "fn": "f", "old": "a", "new": "y"}], "action": "map",
      "folder": True, "exec": None, "parallel": False},
     # DF-C12-executor-dict: no executor for `z` (the second generation): refused only after `f` had run; unknown key; `{}` with parallel=False
